@@ -3,7 +3,7 @@
    Namespace clash name, what yaml_load answered for every string involved, and one observation per
    (parser mode, channel): what the real parser stored for the key, or that it rejected / crashed; for document
    channels also what the mode's loader made of the document at that key. *)
-From JV Require Import Lib.Base Lib.Regex Model.TyVal Model.Scalar Model.Ty Model.TyLoader Model.C05Channels Spec.C05Spec.
+From JV Require Import Lib.Base Lib.Regex Model.TyVal Model.Scalar Model.Ty Model.TyLoader Model.C05Channels Spec.C05Spec Spec.C02Guard.
 
 Record ob := {
   o_yaml : bool;                 (* parser_mode = yaml: the observation is compared with the model *)
@@ -17,13 +17,14 @@ Record case := {
   c_oracle : list (str * lres);
   c_obs : list ob }.
 
+(* `pinned` (Spec/C02Guard.v): the repairs of the type machinery that /repo already contains *)
 Definition yl (c : case) : str -> lres := case_yload (c_oracle c).
 
 Definition model_ob (c : case) (o : ob) : obs :=
   match o_chan o, o_loaded o with
-  | (ChDoc | ChCfgEnv), Some (LVal lv) => obs_of (run_channel (chk (yl c)) (c_clash c) (o_chan o) (c_ty c) (c_text c) lv)
+  | (ChDoc | ChCfgEnv), Some (LVal lv) => obs_of (run_channel (chk pinned (yl c)) (c_clash c) (o_chan o) (c_ty c) (c_text c) lv)
   | (ChDoc | ChCfgEnv), _ => Rejected
-  | ch, _ => obs_of (run_channel (chk (yl c)) (c_clash c) ch (c_ty c) (c_text c) (c_val c))
+  | ch, _ => obs_of (run_channel (chk pinned (yl c)) (c_clash c) ch (c_ty c) (c_text c) (c_val c))
   end.
 
 (* the JSON number grammar of Model/C05Channels.v (the hypothesis of C05_json_scalars_in_yaml) against Python's json *)
@@ -92,11 +93,11 @@ Fixpoint str_under_any (t : ty) (v : val) {struct t} : bool :=
      read as the value and a string / a str or Any position is involved — the textual form is ambiguous
    6 outside the guard for any other reason (nothing listed: a spec failure here is a violation) *)
 Definition class_of (c : case) : N :=
-  let C := chk (yl c) in
+  let C := chk pinned (yl c) in
   let t := c_ty c in let s := c_text c in let v := c_val c in
   if negb (g_none C t v) then 1
   else if str_under_any t v then 5
-  else if negb (g_reads C t s v) && guard (chk_lit (yl c)) t s v then 3
+  else if negb (g_reads C t s v) && guard (chk_lit pinned (yl c)) t s v then 3
   else if negb (g_reads C t s v) && (has_string v || ty_has_str_any t) then 5
   else if c_jsonnet c && jsonnet_lossy v then 4
   else if guard C t s v then (if c_clash c then 2 else 0)
